@@ -49,6 +49,7 @@ type op struct {
 	fillOff int
 	sub     []op
 	name    string
+	src     m.RouteSource // non-peer additions: 0 = gossip
 }
 
 type scenario struct {
@@ -344,6 +345,9 @@ func (sc *scenario) mkEntry(o op) m.RoutingTableEntry {
 		sp := m.SwitchPath{Hops: hops}
 		sp.CalculateTotals()
 		e := m.RoutingTableEntry{DstIP: o.dst, NextHop: o.via, Path: sp, Source: m.RouteSourceGossip}
+		if o.src != 0 {
+			e.Source = o.src
+		}
 		if o.expires != 0 {
 			e.Expires = time.Now().Add(o.expires)
 		}
@@ -777,6 +781,35 @@ func scenarios() []*scenario {
 		}
 		add(op{kind: opRemoveNextHop, via: P3, name: "RemoveNextHop(P3)"})
 		add(op{kind: opRemoveDisconnected, dst: P2, name: "RemoveDisconnected(P2)"})
+		add(op{kind: opClean, name: "Clean"})
+		out = append(out, sc)
+	}
+	// --- scenario 8b: routes of the third source kind ("discovered") mixed with gossip
+	// routes to one destination: the cap of three non-peer routes holds for any mix.
+	{
+		R := ip("fd10:1::1")
+		P1, P3 := ip("fd10:2::b"), ip("fd10:8::d")
+		X, Y := ip("fd10:7::7"), ip("fd10:9::9")
+		D := ip("fd10:4::1")
+		cfg := func() m.RoutingTableConfig {
+			return m.RoutingTableConfig{RouterIP: R, RoutablePrefixes: []m.RoutablePrefix{
+				{BasePrefix: m.BaseNetPrefix, RoutingBits: 12, EntryTTL: 3 * time.Hour, EntriesPerPrefix: 2},
+			}}
+		}
+		sc := &scenario{name: "discovered-and-gossip-routes", cfg: cfg, router: R, limitOf: limitFrom(cfg()),
+			probes: []netip.Addr{P1, P3, D, X},
+			depth:  [2]int{6, 7}, maxState: [2]int{60000, 1500000}}
+		add := func(o op) { sc.ops = append(sc.ops, o) }
+		for _, r := range []struct {
+			n      string
+			via    netip.Addr
+			relays []netip.Addr
+			delay  uint16
+		}{{"P1", P1, nil, 5}, {"P3", P3, nil, 20}, {"P1+X", P1, []netip.Addr{X}, 5}, {"P3+Y", P3, []netip.Addr{Y}, 5}} {
+			add(op{kind: opAddGossip, dst: D, via: r.via, relays: r.relays, delay: r.delay, expires: time.Hour, name: fmt.Sprintf("Gossip(D via %s,%dms)", r.n, r.delay)})
+			add(op{kind: opAddGossip, src: m.RouteSourceDiscovered, dst: D, via: r.via, relays: r.relays, delay: r.delay + 1, expires: time.Hour, name: fmt.Sprintf("Discovered(D via %s,%dms)", r.n, r.delay+1)})
+		}
+		add(op{kind: opRemoveNextHop, via: P3, name: "RemoveNextHop(P3)"})
 		add(op{kind: opClean, name: "Clean"})
 		out = append(out, sc)
 	}
